@@ -221,6 +221,13 @@ class DictWriter:
                 "value": self.write_value_ref(instruction.value),
                 "volatile": instruction.volatile,
             }
+        elif isinstance(instruction, ir.CopyBlob):
+            json_instruction = {
+                "kind": "copyblob",
+                "dst": self.write_value_ref(instruction.dst),
+                "src": self.write_value_ref(instruction.src),
+                "amount": instruction.amount,
+            }
         elif isinstance(instruction, ir.Alloc):
             json_instruction = {
                 "kind": "alloc",
@@ -540,6 +547,11 @@ class DictReader:
             operation = json_instruction["operation"]
             instruction = ir.Unop(operation, a, name, ty)
             self.register_value(instruction)
+        elif itype == "copyblob":
+            dst = self.get_value_ref(json_instruction["dst"])
+            src = self.get_value_ref(json_instruction["src"])
+            amount = json_instruction["amount"]
+            instruction = ir.CopyBlob(dst, src, amount)
         elif itype == "cast":
             name = json_instruction["name"]
             ty = self.get_type(json_instruction["type"])
